@@ -17,7 +17,7 @@ Cases == ndJsonDeserialize(IOEnv.CASES)
 (* preconditions of C03, decided from the rule *)
 WellFormedT(rc) == \A v \in INodes(rc) : rc.tG[v][1] # 0 /\ rc.tG[v][1] = rc.tH[v][1]
 ConsistentH(rc, mode) ==
-   IF mode = "implicit" \/ mode = "rendered" THEN HAtoms(rc) = {}
+   IF mode = "implicit" THEN HAtoms(rc) = {}
    ELSE /\ \A v \in Heavy(rc) : rc.tG[v][3] = rc.tH[v][3]    \* every centre hydrogen is written as an atom
         /\ HAtoms(rc) \subseteq RCNodes(rc)                   \* and no spectator hydrogen is
 
@@ -25,9 +25,10 @@ ResClauses(c, k) ==
    LET r == c.results[k]
        I == r.its
        tag == "result" \o ToString(k) \o ":"
+       host == IF "host" \in DOMAIN r THEN r.host ELSE c.host    \* a result rendered on its own index list carries the substrate on it
        hostOnly == [n |-> Cardinality({v \in 1..c.host.n : c.host.present[v] = 1}),
                     t |-> SelectSeq(c.host.t, LAMBDA x : TRUE), adj |-> c.host.adj]
-   IN << <<tag \o "substrate-side-is-not-the-unchanged-substrate", ReactantSideIsSubstrate(I, c.host)>>,
+   IN << <<tag \o "substrate-side-is-not-the-unchanged-substrate", ReactantSideIsSubstrate(I, host)>>,
          <<tag \o "element-or-charge-not-conserved", CentreBalanced(c.rc) => Conserved(I)>>,
          <<tag \o "hydrogen-or-charge-change-differs-from-the-rule",
               TotalDeltaH(I) = TotalDeltaH(c.rc) /\ TotalDeltaCh(I) = TotalDeltaCh(c.rc) /\ SameElements(I)>>,
